@@ -1,4 +1,5 @@
 import Operon.Lemmas.C13
+import Operon.Lemmas.C13Lines
 import Operon.Gen.LysosomeLocks
 /-!
 # C13 — waste handling never hangs, stays bounded and accounts for every item
@@ -198,6 +199,33 @@ theorem c13_queue_bounded_concurrent (cfg : Cfg) (h2 : 2 ≤ cfg.maxQ) (acts : L
     (runActs cfg init acts).queue.length ≤ cfg.maxQ :=
   runActs_queue_bound cfg h2 acts init (by simp [init])
 
+/-- **Line level.**  The lysosome's client threads presented in the generic lock semantics shared with C05
+    (`Operon.Lock`): each call is one region on the queue lock (the outermost `with self._lock`, re-entrant inner
+    acquisitions erased) — `ingest…`, `autophagy`, the pop of `digest` — or the loop of `digest`, which only adds to the
+    calling thread's own account (single-line commuting counter increments) and is a region on a lock private to the
+    thread.  Every region may be cut into source lines in ANY way.  Then, for any number of threads on a fresh
+    lysosome and ANY interleaving of their lines: every quiescent configuration reached (in particular the final one) is
+    exactly what running whole regions one after the other (in an order that keeps each thread's own) produces, and in
+    it every ingested item is in the queue or in exactly one thread's account (pending / digested / errored /
+    emergency-dropped / expired), exactly once; items are numbered 0,1,2,…; the queue bound holds. -/
+theorem c13_lines_reduce_to_atomic_regions (cfg : Cfg) (ts : List (Operon.Lock.RThread Loc QS))
+    (hreg : ∀ t ∈ ts, ∀ r ∈ t.todo, LysRegion cfg r) (hloc : ∀ t ∈ ts, t.loc = ⟨[], [], [], [], []⟩)
+    (c : Operon.Lock.Cfg Loc QS)
+    (hs : Operon.Lock.Star Operon.Lock.Step (Operon.Lock.RCfg.toCfg ⟨fun _ => ⟨[], [], 0⟩, ts⟩) c)
+    (hq : c.quiescent) :
+    ∃ rc : Operon.Lock.RCfg Loc QS, c = rc.toCfg ∧
+      Operon.Lock.Star Operon.Lock.RStep ⟨fun _ => ⟨[], [], 0⟩, ts⟩ rc ∧
+      (∀ it, (rc.st 0).queue.count it + tot rc.threads it = if it ∈ (rc.st 0).items then 1 else 0) ∧
+      (rc.st 0).items.map (·.seq) = List.range (rc.st 0).items.length ∧
+      (2 ≤ cfg.maxQ → (rc.st 0).queue.length ≤ cfg.maxQ) := by
+  obtain ⟨rc, hc, hr, hinv⟩ := lines_reduce cfg _ (linv_fresh cfg ts hreg hloc) c hs hq
+  refine ⟨rc, hc, hr, ?_, hinv.seqs, hinv.bound⟩
+  intro it
+  have hnd : (rc.st 0).items.Nodup := by
+    have : ((rc.st 0).items.map (·.seq)).Nodup := by rw [hinv.seqs]; exact List.nodup_range
+    exact List.Pairwise.of_map (·.seq) (fun a b hab e => hab (by rw [e])) this
+  rw [hinv.occ_eq it, hnd.count]
+
 /-! ### sensitive items -/
 
 /-- With the built-in toxic digester (no custom digester registered for TOXIC_BYPRODUCT): nothing in the recycling
@@ -316,6 +344,13 @@ example : CallsProg methods tableMethods [.acq, .acq, .rel, .rel] := by
   exact Path.acq (Path.callSkip (Path.callTake hauto (Path.rel Path.nil)))
 
 example : reentOf lockKind = some true := by decide
+
+/-- regions meeting `LysRegion` (hypothesis of `c13_lines_reduce_to_atomic_regions`): an ingest as a single-line
+    region, the pop of `digest(1)`, and digest's loop cut into two lines on a private lock -/
+example : LysRegion cfgEx ⟨0, [opEff cfgEx (.ingest 1 .expired 2 .now)]⟩ ∧ LysRegion cfgEx ⟨0, [popEff (some 1)]⟩ ∧
+    LysRegion cfgEx ⟨7, [fun l x => (l, x), fun l x => (iterEff cfgEx l, x)]⟩ := by
+  refine ⟨Or.inl ⟨rfl, Or.inl ⟨1, .expired, 2, .now, fun _ _ => rfl⟩⟩,
+    Or.inl ⟨rfl, Or.inr (Or.inr ⟨some 1, fun _ _ => rfl⟩)⟩, Or.inr ⟨by decide, fun _ _ => rfl⟩⟩
 
 /-- two digest calls in flight at once (threads 1 and 2 popped one item each, thread 2's iteration runs first, an
     ingest with emergency digest happens in between): not quiescent in the middle, quiescent and balanced at the end -/
